@@ -7,9 +7,9 @@ def main():
     c = Check("C16", a.tier, a.seed)
     if a.replay:
         r = json.load(open(a.replay)); c.seed, c.tier = r["seed"], r["tier"]
-    ok_mk, log = c.make(["Props/C16.vo", "Model/C16Run.vo"])
-    thms = theorems_of("Props/C16.v")
-    assumptions = c.audit("Props.C16", thms) if ok_mk else {}
+    ok_mk, log = c.make(["Model/C16Run.vo"] + props("C16")[2])
+    thms = theorems_of(*props("C16")[0])
+    assumptions = c.audit(props("C16")[1], thms) if ok_mk else {}
     binary = c.build_harness("release")
     casefile = os.path.join(c.work, "cases.txt")
     n, dist, fails, samples, stats = 0, {}, [], [], []
